@@ -2,11 +2,13 @@
      rpc/core/service.go      Service.MaxRequestLength, Service.Handle (IO plugins, then the function)
      rpc/core/error.go        ErrRequestEntityTooLarge, RequestEntityTooLarge = "Request entity too large"
      rpc/mock/handler.go      Handler.Handler          len(request) > max -> return the error value
-     rpc/http/handler.go      ServeHTTP                request.ContentLength > int64(max) -> 413
+     rpc/http/handler.go      ServeHTTP                request.ContentLength > int64(max) -> 413;
+                                                       body shorter than Content-Length -> 400 (fix bf2ea6e)
                               ServeFastHTTP            ctx.Request.Header.ContentLength() > max -> 413
      rpc/socket/handler.go    Handler.receive / send   length > max -> error frame, connection closed
      rpc/websocket/handler.go Handler.receive / send   len(body) > max -> error frame, connection closed
-     rpc/udp/handler.go       Handler.receive / send   length > max -> error datagram
+     rpc/udp/handler.go       Handler.receive / send   length != n-8 -> dropped as invalid (fix 5ee4f50);
+                                                       length > max -> error datagram
      rpc/{http,http/fasthttp,socket,websocket,udp}/transport.go   the client side of the rejection
    Executable definitions only; the proofs are in Proofs/LimitProofs.v.
 
@@ -45,19 +47,22 @@ Definition has (q : quantity) (S : list quantity) : bool := existsb (quantity_eq
 Definition pinned_sites : site_table := fun tr =>
   match tr with
   | Mock => [QBodyLen]               (* if len(request) > h.Service.MaxRequestLength *)
-  | NetHttp => [QContentLength]      (* if request.ContentLength > int64(h.Service.MaxRequestLength) *)
-  | FastHttp => [QContentLength]     (* if ctx.Request.Header.ContentLength() > h.Service.MaxRequestLength *)
+  | NetHttp => [QContentLength; QBodyLen]
+                                     (* if request.ContentLength > int64(h.Service.MaxRequestLength)
+                                        if len(data) > h.Service.MaxRequestLength        (fix 72ffd23) *)
+  | FastHttp => [QContentLength; QBodyLen]
+                                     (* if ctx.Request.Header.ContentLength() > h.Service.MaxRequestLength
+                                        if len(body) > h.Service.MaxRequestLength        (fix e18593a) *)
   | Tcp | Unix => [QDeclared]        (* if length > h.Service.MaxRequestLength *)
   | Websocket => [QBodyLen]          (* if len(body) > h.Service.MaxRequestLength *)
-  | Udp => [QDeclared]               (* case length > h.Service.MaxRequestLength *)
+  | Udp => [QDeclared]               (* case length > h.Service.MaxRequestLength, reached only when length == n-8 *)
   end.
 
-(* the sites after the repairs proposed in hooks/c13-fix-*.patch: the HTTP handlers also look at
-   the bytes read, the UDP handler also at the bytes received *)
-Definition repaired_sites : site_table := fun tr =>
+(* historical: the sites before the fix commits 72ffd23 / e18593a -- the HTTP handlers looked at
+   ContentLength only, which is -1 for a chunked body *)
+Definition original_sites : site_table := fun tr =>
   match tr with
-  | NetHttp | FastHttp => [QContentLength; QBodyLen]
-  | Udp => [QDeclared; QBodyLen]
+  | NetHttp | FastHttp => [QContentLength]
   | _ => pinned_sites tr
   end.
 
@@ -74,12 +79,14 @@ Definition content_length (decl : option Z) : Z := match decl with Some d => d |
 (* The request body as delimited by the layer underneath the limit check -- the bytes that
    belong to this request.  On the byte streams (tcp, unix, and HTTP with a Content-Length, and
    the websocket frame layer) the announced length IS the delimiter: what follows belongs to the
-   next frame.  A datagram, a chunked body and a websocket message are delimited by the
-   carrier, whatever a header inside says.  [None]: no complete request. *)
+   next frame.  A chunked body and a websocket message are delimited by the carrier.  A datagram
+   is delimited by the carrier too, and its header must agree: a datagram whose header announces
+   anything but the number of bytes it carries is no request (it is dropped as invalid before
+   the limit is looked at).  [None]: no complete request. *)
 Definition framed (tr : transport) (decl : option Z) (sent : Z) : option Z :=
   match tr, decl with
   | Mock, _ => Some sent
-  | Udp, Some _ => Some sent
+  | Udp, Some d => if d =? sent then Some sent else None
   | (NetHttp | FastHttp | Websocket), None => Some sent
   | (NetHttp | FastHttp | Websocket | Tcp | Unix), Some d => if sent <? d then None else Some d
   | (Tcp | Unix | Udp), None => None
@@ -91,9 +98,11 @@ Inductive verdict :=
 | RejectInBand      (* sendResponse(ctx, queue, index, nil, ErrRequestEntityTooLarge): error frame;
                        socket and websocket then drop the connection *)
 | RejectError       (* mock: return nil, core.ErrRequestEntityTooLarge *)
-| Starve            (* the announced bytes never arrive: the read blocks until the peer gives up;
-                       nothing is handed over (fasthttp answers 400, the others just hang up) *)
-| Malformed.        (* no header where the transport needs one *)
+| Reject400         (* HTTP: the body ended before Content-Length bytes: 400, nothing is handed over *)
+| Starve            (* tcp, unix, websocket: the announced bytes never arrive: the read blocks until
+                       the peer gives up; nothing is handed over, the connection is dropped *)
+| Malformed.        (* no header where the transport needs one; a datagram whose header disagrees
+                       with its size: onError(InvalidRequestError{}), no answer *)
 
 (* sites S: is quantity q, with value v, compared and above the limit?   X > max *)
 Definition over (S : list quantity) (q : quantity) (max v : Z) : bool := has q S && (v >? max).
@@ -107,13 +116,15 @@ Definition admission (sites : site_table) (tr : transport) (max : Z) (decl : opt
       if over S QBodyLen max sent then RejectError else Process sent
   | NetHttp =>
       (* if request.ContentLength > int64(max) { 413; return }
-         data, err := readAll(request.Body, request.ContentLength)   -- err only goes to onError
-           readAll: length > 0: make([]byte, length) + io.ReadFull (a short body stays zero padded)
+         data, err := readAll(request.Body, request.ContentLength)
+           readAll: length > 0: make([]byte, length) + io.ReadFull
                     otherwise ioutil.ReadAll(body)  (Content-Length: 0 gives http.NoBody)
-         [repair] if len(data) > max { 413; return }
+         if err != nil { onError; Body.Close(); 400; return }      -- body ended early
+         if len(data) > max { 413; return }      -- the body is read through io.LimitReader(Body, max+1)
          h.Service.Handle(ctx, data) *)
       let cl := content_length decl in
       if over S QContentLength max cl then Reject413
+      else if (cl >? 0) && (sent <? cl) then Reject400
       else
         let n := if cl >? 0 then cl else match decl with None => sent | Some _ => 0 end in
         if over S QBodyLen max n then Reject413 else Process n
@@ -121,10 +132,10 @@ Definition admission (sites : site_table) (tr : transport) (max : Z) (decl : opt
       (* fasthttp reads the whole body before it calls the handler: Content-Length bytes, or
          every chunk; a connection that ends early never reaches the handler (400).
          if ctx.Request.Header.ContentLength() > max { 413; return }
-         body := ctx.Request.Body(); [repair] if len(body) > max { 413; return }
+         body := ctx.Request.Body(); if len(body) > max { 413; return }
          h.Service.Handle(ctx, copy of body) *)
       match framed FastHttp decl sent with
-      | None => Starve
+      | None => Reject400
       | Some n =>
           if over S QContentLength max (content_length decl) then Reject413
           else if over S QBodyLen max n then Reject413 else Process n
@@ -149,12 +160,14 @@ Definition admission (sites : site_table) (tr : transport) (max : Z) (decl : opt
       end
   | Udp =>
       (* n, addr, err := conn.ReadFromUDP(buffer[:]); length, index, ok := parseHeader(buffer[:8])
-         case length > max [repair: || n-8 > max]: sendResponse(..., ErrRequestEntityTooLarge, addr)
-         default: body := make([]byte, length); copy(body, buffer[8:])   -- n is not consulted *)
+         case length != n-8: h.onError(conn, core.InvalidRequestError{})          -- no answer
+         case length > max: sendResponse(..., ErrRequestEntityTooLarge, addr)
+         default: body := make([]byte, length); copy(body, buffer[8:]) *)
       match decl with
       | None => Malformed
       | Some d =>
-          if over S QDeclared max d || over S QBodyLen max sent then RejectInBand else Process d
+          if negb (d =? sent) then Malformed
+          else if over S QDeclared max d || over S QBodyLen max sent then RejectInBand else Process d
       end
   end.
 
@@ -187,17 +200,8 @@ Definition truthful (tr : transport) (decl : option Z) (sent : Z) : bool :=
 (* does the table make the handler look at the quantity that delimits the request? *)
 Definition covers (tr : transport) (S : list quantity) : bool :=
   match tr with
-  | Tcp | Unix => has QDeclared S || has QBodyLen S
+  | Tcp | Unix | Udp => has QDeclared S || has QBodyLen S
   | _ => has QBodyLen S
-  end.
-
-(* the guard under which the pinned sites do enforce the limit: an HTTP request announces its
-   length, a UDP header does not announce less than the datagram carries *)
-Definition pinned_guard (tr : transport) (decl : option Z) (sent : Z) : bool :=
-  match tr, decl with
-  | (NetHttp | FastHttp), None => false
-  | Udp, Some d => sent <=? d
-  | _, _ => true
   end.
 
 (* ---- the way back: what the server answers and what the client makes of it ---------------- *)
@@ -223,6 +227,7 @@ Definition reply_of (v : verdict) : reply :=
   | Reject413 => RpHttp 413
   | RejectInBand => RpFrame true too_large_text
   | RejectError => RpError true
+  | Reject400 => RpHttp 400
   | Starve | Malformed => RpNone
   end.
 
@@ -266,7 +271,7 @@ Definition client_decode (r : reply) : outcome :=
    both end in conn.Close(err); whichever gets there first decides what the pending call returns,
    and a reset can also discard the frame before it is read.  [race] is that choice of schedule;
    [still_writing]: the client had not finished writing the body when the server hung up.
-   hooks/c13-fix-socket-reject-linger.patch makes the server wait (bounded) for the client to
+   hooks/c13-fix-socket-reject-linger.patch (not applied: known finding) makes the server wait (bounded) for the client to
    finish: [linger = true] removes the TeardownFirst schedules. *)
 Inductive race := FrameFirst | TeardownFirst.
 
@@ -297,8 +302,36 @@ Definition sock_server_verdict (max : Z) (s : list byte) : verdict :=
   | ([], _) => Malformed
   end.
 
+(* One iteration of Handler.receive (rpc/udp/handler.go, Server max) and of conn.receive
+   (rpc/udp/transport.go, Client) on receive buffer [buf], as of fix 5ee4f50:
+     n, addr, err := conn.ReadFromUDP(buffer[:])
+     case n < 8: onError
+     default: length, index, ok := parseHeader(buffer[:8])
+        case length == 0 && index == -1 && !ok: onError
+        case length != n-8: onError                      -- declared must equal received
+        case length > MaxRequestLength: respond too large        [server]
+        default: body := make([]byte, length); copy(body, buffer[8:])
+                 [client] if !ok { error carrying body } *)
+Definition udp_recv (sd : side) (buf d : list byte) : dgram_result :=
+  let '(buf', n) := udp_read_into buf d in
+  if (n <? 8)%nat then DShort
+  else
+    match udp_parse_header (firstn 8 buf') with
+    | None => DUnreachable
+    | Some (length, index, ok) =>
+      if is_reject (length, index, ok) then DBadHeader
+      else if negb (length =? Z.of_nat n - 8) then DBadHeader
+      else if (match sd with Server max => length >? max | Client => false end)
+      then DTooLarge index
+      else
+        let body := copy_fresh (Z.to_nat length) (skipn 8 buf') in
+        if (match sd with Client => negb ok | Server _ => false end)
+        then DErrorFrame body
+        else DDeliver index body
+    end.
+
 Definition udp_server_verdict (max : Z) (buf d : list byte) : verdict :=
-  match snd (udp_step (Server max) buf d) with
+  match udp_recv (Server max) buf d with
   | DDeliver _ b => Process (Z.of_nat (List.length b))
   | DTooLarge _ => RejectInBand
   | _ => Malformed
@@ -315,12 +348,19 @@ Definition ws_server_verdict (max : Z) (msg : list byte) : verdict :=
 Definition http_yield (decl : option Z) (wire : list byte) : list byte :=
   match decl with Some d => firstn (Z.to_nat d) wire | None => wire end.
 
+(* ServeHTTP on bytes, through readAll as modelled in Frame.http_read_all:
+     if ContentLength > max { 413 }
+     data, err := readAll(io.LimitReader(Body, max+1), ContentLength); if err != nil { 400 }
+     if len(data) > max { 413 } *)
 Definition http_server_verdict (max : Z) (decl : option Z) (wire : list byte) : verdict :=
-  match http_server_recv max (content_length decl) (http_yield decl wire) with
-  | HTooLarge => Reject413
-  | HDeliver b => Process (Z.of_nat (List.length b))
-  | HError => Malformed
-  end.
+  let cl := content_length decl in
+  if cl >? max then Reject413
+  else
+    let limited := firstn (Z.to_nat (max + 1)) (http_yield decl wire) in
+    let '(data, err) := http_read_all cl limited in
+    if err then Reject400
+    else if Z.of_nat (List.length data) >? max then Reject413
+    else Process (Z.of_nat (List.length data)).
 
 (* what the real clients make of the bytes that come back *)
 Definition sock_client (s : list byte) : outcome :=
@@ -331,7 +371,7 @@ Definition sock_client (s : list byte) : outcome :=
   end.
 
 Definition udp_client (d : list byte) : outcome :=
-  match udp_client_recv d with
+  match udp_recv Client udp_zero_buffer d with
   | DDeliver _ _ => OResult
   | DErrorFrame b => client_decode (RpFrame true b)
   | _ => ONothing
